@@ -1903,9 +1903,11 @@ def run(ast_dir, spec_paths, excluded_path, out_c, out_map, out_report, layouts_
         L.append(f"#ifndef VEC_ELEM_OK_{nm}\n#define VEC_ELEM_OK_{nm}(x) 1\n#endif")
         L.append(f"DEFINE_VEC_MODEL({nm}, {elem})")
     L.append('/* ---- prototypes ---- */')
+    slices = {'proto': {}, 'fn': {}, 'pre': None}     # text of the verified translation unit, split per function (content-addressed reuse of harness runs)
     for cn, p in protos.items():
-        if p: L.append(p + ';')
-    for nm, p in gen.helper_protos.items(): L.append(p + ';')
+        if p: L.append(p + ';'); slices['proto'][cn] = p + ';'
+    for nm, p in gen.helper_protos.items(): L.append(p + ';'); slices['proto'][nm] = p + ';'
+    n_pre_a = len(L)
     L.append('#include "ghost.h"')
     # excluded (untranslated) functions may carry an ASSUMED contract: declaration + contract clauses, no body
     for f in ctx.funcs.values():
@@ -1916,7 +1918,9 @@ def run(ast_dir, spec_paths, excluded_path, out_c, out_map, out_report, layouts_
             L.append(protos[f.cname]); L += gen.tag_lines(sp, sp.contract); L.append(';')
             gen.used_specs.add(f.cname)
     L.append('/* ---- generated helpers (value/heap construction wrappers, std algorithm instances) ---- */')
+    n_pre_b = len(L)
     for nm, p in gen.helper_protos.items():
+        h0 = len(L)
         L.append(p)
         hs = getattr(gen, 'helper_specs', {}).get(nm)
         if hs: L += gen.tag_lines(hs, hs.contract)
@@ -1927,11 +1931,16 @@ def run(ast_dir, spec_paths, excluded_path, out_c, out_map, out_report, layouts_
                 if a != 'entry': raise SystemExit(f"cxx2c: spec {nm}: generated helpers support only '@ghost entry'")
             b = [b[0], '    /* ghost entry */'] + gen.tag_lines(hs, hs.ghost['entry'], '    ') + b[1:]
         L += b
+        slices['fn'][nm] = '\n'.join(str(x) for x in L[h0:])
     L.append('/* ---- translated functions ---- */')
     for cn, b in bodies.items():
         start = len(L) + 1
         L += b
         gen.fn_ranges[cn] = (start, len(L))
+        slices['fn'][cn] = '\n'.join(str(x) for x in b)
+    # everything that is not a prototype or a function definition: types, macros, vector models, assumed contracts of excluded functions
+    proto_lines = set(slices['proto'].values())
+    slices['pre'] = '\n'.join(str(x) for x in L[:n_pre_b] if str(x) not in proto_lines)
     # flatten (a line may contain newlines) and build the line table
     flat = []; linemap = {}
     for x in L:
@@ -1945,7 +1954,7 @@ def run(ast_dir, spec_paths, excluded_path, out_c, out_map, out_report, layouts_
     cur = None
     for i, l in enumerate(flat, 1):
         m = re.match(r'^/\* (.*) : .* \*/$', l)
-    json.dump({'lines': linemap, 'harnesses': harnesses}, open(out_map, 'w'), indent=0)
+    json.dump({'lines': linemap, 'harnesses': harnesses, 'slices': slices}, open(out_map, 'w'), indent=0)
     # spec keys without target
     missing = [k for k in fnspecs if k not in gen.used_specs]
     rep = {'translated': gen.report['translated'], 'skipped': gen.report['skipped'], 'excluded': gen.report['excluded'],
